@@ -223,6 +223,12 @@ theorem C17_source_keeps_sections_partial (i : Info) (h : SubHdr) (choices : Lis
     isSecAt k t = isSecAt k tree :=
   loadCfgArg_keeps i h choices tree t hq hok k
 
+/-- fix f6d3709 (finding 15d): loading a default config file can never fail with the required-subcommand error, whatever
+    the file contains (the call passes `fail_no_subcommand=False`: `tie_sources`) -/
+theorem C17_default_config_never_requires (single : Bool) (p : P) (tree cfg : Cfg) (key : List String) :
+    applyDefaultCfg single p tree cfg ≠ .error (.nosub key) :=
+  applyDefaultCfg_never_requires single p tree cfg key
+
 /-! ## non-vacuity and witnesses -/
 
 def leafP (d : Cfg) : P := .node ⟨d, []⟩ .none []
